@@ -3,6 +3,7 @@
 package app
 
 import (
+	"net/url"
 	"regexp"
 	"strconv"
 	"strings"
@@ -99,4 +100,13 @@ func vStppShiftMSOf(seg *mp4.MediaSegment) int {
 		ms, _ = strconv.Atoi(parts[2][3:])
 	}
 	return ((h*60+mi)*60+sec)*1000 + ms
+}
+
+// vPatchPublishMS extracts the publishTime query parameter of a patch location and returns it in Unix ms (native side).
+func vPatchPublishMS(loc string) int {
+	u, err := url.Parse(loc)
+	if err != nil {
+		panic(err)
+	}
+	return vDateTimeMS(m.DateTime(u.Query().Get("publishTime")))
 }
